@@ -123,7 +123,7 @@ def run_cases(cases, res, stratum):
             if lib.codes_of(cur) != before or cur.dtype != before_dtype:
                 res.fail(c, 'C10: the source object was modified by a conversion (%s)' % st['route'], expected=before[:8], got=lib.codes_of(cur)[:8]); ok = False; break
             trail.append({'codes': lib.codes_of(d), 'shape': list(np.asarray(d.val).shape), 'dtype': d.dtype, 'status': lib.status3(d),
-                          'fmt': (bool(d.signed), int(d.n_word), int(d.n_frac))})
+                          'fmt': (bool(d.signed), int(d.n_word), int(d.n_frac)), 'getval': lib.vals_of(d.get_val()), 'call': lib.vals_of(d())})
             cur = d
         if ok: pend.append((c, trail))
     # Spec: sequential quantization of the exact values
@@ -159,6 +159,9 @@ def run_cases(cases, res, stratum):
                 res.fail(c, 'C10: array shape not preserved by %s' % st['route'], expected=in_shape, got=tr['shape']); bad = True; continue
             if tr['codes'] != want:
                 res.fail(c, 'C10: converted value differs from the exact source value quantized into the destination (%s)' % st['route'], expected=want[:8], got=tr['codes'][:8]); bad = True; continue
+            back = [Fraction(cd) / Fraction(2) ** st['dnf'] for cd in tr['codes']]
+            if tr['getval'] != back or tr['call'] != back:
+                res.fail(c, 'C10: the value read back after %s is not code*2^-n_frac of the converted object' % st['route'], expected=[str(b) for b in back[:6]], got=[str(b) for b in tr['getval'][:6]]); bad = True; continue
             if tr['status'][:2] != (so, su):
                 res.fail(c, 'C10: overflow/underflow flags after %s differ from the quantization conditions' % st['route'], expected=(so, su), got=tr['status'][:2]); bad = True; continue
         if not bad:
